@@ -192,6 +192,15 @@ pub fn run(ctx: &Ctx) -> CheckResult {
             spaces.push(Space { cfg: Cfg::p1(k, n), alphabet: tiny.clone(), depth: d - 1, label: "S_tiny+reset" });
         }
     }
+    // deep and narrow: three levels, periods 3..8 (a window whose mean equals its newest value at one
+    // particular ring phase, then the settled inputs that expose a wrong running sum, needs ~2n inputs)
+    let narrow = s_ops(&S_NARROW);
+    for n in 3..=8usize {
+        for k in [Kind::Sd, Kind::Mad, Kind::Sma, Kind::Wma, Kind::Ema, Kind::Min] {
+            spaces.push(Space { cfg: Cfg::p1(k, n), alphabet: narrow.clone(), depth: if th { 13 } else { 11 }, label: "S_narrow" });
+        }
+        spaces.push(Space { cfg: Cfg::pm(Kind::Bb, n, 2.0), alphabet: narrow.clone(), depth: if th { 12 } else { 10 }, label: "S_narrow" });
+    }
     let mut jobs: Vec<(usize, usize)> = vec![];
     for (i, s) in spaces.iter().enumerate() {
         for a in 0..s.alphabet.len() {
